@@ -148,7 +148,7 @@ fn swap_sigs(items: &mut [Vec<u8>], old: &WorldSat, new: &WorldSat) {
 impl Check for C13 {
     fn id(&self) -> &'static str { "C13" }
     fn rule(&self) -> String {
-        "case = sane descriptor of any output type, world, real signatures, the library's own satisfaction; then one of: (i) unchanged, (ii) 1-3 mutations of the witness / scriptSig elements (drop, duplicate, swap, replace by empty / 0x01 / junk / another key's valid signature / a signature with a flipped byte or hash type), (iii) the same witness in a transaction with other nLockTime / nSequence values around the script's locks (other unit, 0, 0xfffffffe, 0xffffffff) with all signatures re-made for that transaction. Oracles: (1) the interpreter accepts the library's own satisfaction; (2) whenever Interpreter::from_txdata + iter(secp, tx, i, prevouts) yields no error, the reference interpreter accepts under consensus flags; (3) on accepted spends the reported SatisfiedConstraints equal, as a multiset, the executed path's successful signature checks (key, signature), successful hash locks (hash, preimage) and executed CLTV/CSV arguments, and make the lifted policy true. Non-trivial = mutated or lock-varied cases that the interpreter still accepts; distinct by (descriptor, world, variation).".into()
+        "case = sane descriptor of any output type, world, real signatures, the library's own satisfaction; then one of: (i) unchanged, (ii) 1-3 mutations of the witness / scriptSig elements (for segwit inputs also an extra push in the scriptSig, next to the redeem-script push of p2sh-wrapped outputs or in the empty scriptSig of native ones) (drop, duplicate, swap, replace by empty / 0x01 / junk / another key's valid signature / a signature with a flipped byte or hash type), (iii) the same witness in a transaction with other nLockTime / nSequence values around the script's locks (other unit, 0, 0xfffffffe, 0xffffffff) with all signatures re-made for that transaction. Oracles: (1) the interpreter accepts the library's own satisfaction; (2) whenever Interpreter::from_txdata + iter(secp, tx, i, prevouts) yields no error, the reference interpreter accepts under consensus flags; (3) on accepted spends the reported SatisfiedConstraints equal, as a multiset, the executed path's successful signature checks (key, signature), successful hash locks (hash, preimage) and executed CLTV/CSV arguments, and make the lifted policy true. Non-trivial = mutated or lock-varied cases that the interpreter still accepts; distinct by (descriptor, world, variation).".into()
     }
     fn assumptions(&self) -> Vec<String> { vec!["transaction version 2 (the interpreter is not given the version)".into()] }
     fn lanes(&self, tier: Tier) -> Vec<(&'static str, usize, usize)> {
@@ -336,6 +336,24 @@ impl Check for C13 {
         } else {
             t.tx.input[idx].script_sig = ss.clone();
             t.tx.input[idx].witness = Witness::from_slice(&items);
+            // p2sh-wrapped segwit: the scriptSig must be exactly the push of the redeem script
+            // (BIP141); now and then put something else next to it, or into a native input
+            if variation == 1 && src.chance(1, 4) {
+                let mut pushes_ss: Vec<Vec<u8>> = pushes(ss.as_bytes()).unwrap_or_default();
+                let extra: Vec<u8> = match src.below(4) {
+                    0 => vec![],
+                    1 => vec![1],
+                    2 => vec![0x42; 4],
+                    _ => pushes_ss.first().cloned().unwrap_or_else(|| vec![7]),
+                };
+                if src.bool() || pushes_ss.is_empty() {
+                    pushes_ss.insert(0, extra);
+                } else {
+                    pushes_ss.push(extra);
+                }
+                t.tx.input[idx].script_sig = ScriptBuf::from_bytes(build_script_sig(&pushes_ss));
+                var_desc.push_str(" scriptsig-extra-push");
+            }
         }
         rep.desc = format!("{} | {} | {}", text, world.describe(), var_desc);
         rep.class(format!("variation={}", ["unchanged", "mutated", "locks"][variation]));
